@@ -16,11 +16,20 @@
                                    (both refusal tests in one condition; `List.Perm`)
   * `permutation_refuses_duplicates`   a list with a repeated entry is refused on EVERY domain
   * `permute_spec`, `permute_refused_when_cod_differs`   monoidal.py:550-564
+  * `cq_swap_type`, `cq_swap_blocks`, `cq_swap_spec`   the EVALUATION target of circuit swaps,
+                                   `CQMap.swap(left, right)` (cqmap.py:188-193): for classical and
+                                   quantum parts of any lengths and dimensions its underlying tensor
+                                   over `classical @ quantum @ quantum` is the wire-permutation
+                                   tensor of the block exchange in each of the three blocks — the
+                                   conjugate copy of the quantum wires is permuted like the first
+                                   copy, not by the inverse (Proofs/CQSwap.lean; for every
+                                   commutative star-ring of scalars)
   The per-class factories (rigid, tensor, circuit, zx) pass `ar_factory`/`swap_factory` to this
   same code; the model has one box constructor `Box.swap`, so the theorems are about the shared
   algorithm and the classes are tied to it by the correspondence run (harness/props/c10.py).
 -/
 import Proofs.PermList
+import Proofs.CQSwap
 
 namespace DV.C10
 open DV
@@ -104,6 +113,81 @@ theorem permute_refused_when_cod_differs (d : Diagram) (p : List Int) (hd : d.WF
     (hdc : d.cod ≠ d.dom) (hp : isPermList p = true) (hl : d.dom.length = p.length) :
     d.permute p = .error .axiom :=
   Diagram.permute_dom_ne_cod d p hd hdc hp hl
+
+/-! ### The evaluation target of circuit swaps: `CQMap.swap` (cqmap.py:188-193)
+
+    `CQ.flatIdx ds xs` is the row-major position of the multi-index `xs` (one value per wire) in
+    an array of shape `ds`; `CQ.IsIdx ds xs` says every value lies below its wire's dimension. -/
+
+section CQSwap
+open DV.CQ
+variable {R : Type} [CommRing R] [StarRing R]
+
+/-- `CQMap.swap(l, r) : l @ r -> r @ l`, and its underlying tensor has `Π` of the wire dimensions
+    `classical @ quantum @ quantum` of `l @ r` rows and of `r @ l` columns. -/
+theorem cq_swap_type (l r : CQTy) :
+    (CQMap.swap l r : CQMap R).dom = l.tensor r ∧ (CQMap.swap l r : CQMap R).cod = r.tensor l ∧
+    (CQMap.swap l r : CQMap R).toMat.r = prodL (l.tensor r).udim ∧
+    (CQMap.swap l r : CQMap R).toMat.c = prodL (r.tensor l).udim :=
+  ⟨rfl, rfl, CQMap.swap_utensor_shape l r⟩
+
+/-- Block by block: with the wires of `l` then `r` on the input of the classical block, of the
+    quantum block and of its conjugate copy, the entry is 1 iff each output block carries the
+    wires of `r`, in order, followed by the wires of `l`, in order (0 otherwise). -/
+theorem cq_swap_blocks (l r : CQTy) {xc yc xq yq xp yp zc zq zp : List Nat}
+    (hxc : IsIdx l.c xc) (hyc : IsIdx r.c yc) (hxq : IsIdx l.q xq) (hyq : IsIdx r.q yq)
+    (hxp : IsIdx l.q xp) (hyp : IsIdx r.q yp)
+    (hzc : IsIdx (r.c ++ l.c) zc) (hzq : IsIdx (r.q ++ l.q) zq) (hzp : IsIdx (r.q ++ l.q) zp) :
+    (CQMap.swap l r : CQMap R).f
+        (flatIdx (l.c ++ r.c) (xc ++ yc)) (flatIdx (l.q ++ r.q) (xq ++ yq))
+        (flatIdx (l.q ++ r.q) (xp ++ yp))
+        (flatIdx (r.c ++ l.c) zc) (flatIdx (r.q ++ l.q) zq) (flatIdx (r.q ++ l.q) zp) =
+      iv (zc = yc ++ xc ∧ zq = yq ++ xq ∧ zp = yp ++ xp) :=
+  CQMap.swap_blocks l r hxc hyc hxq hyq hxp hyp hzc hzq hzp
+
+/-- **cq_swap_spec**.  The underlying tensor of `CQMap.swap(l, r)` (the flattened `array`, read
+    at one value per wire of `classical @ quantum @ quantum`) is the permutation tensor on
+    (classical l+r, quantum l+r, quantum' l+r): every wire of `l` moves, in order, to the right of
+    every wire of `r`, in the classical block and in BOTH copies of the quantum block. -/
+theorem cq_swap_spec (l r : CQTy) {xc yc xq yq xp yp z : List Nat}
+    (hxc : IsIdx l.c xc) (hyc : IsIdx r.c yc) (hxq : IsIdx l.q xq) (hyq : IsIdx r.q yq)
+    (hxp : IsIdx l.q xp) (hyp : IsIdx r.q yp) (hz : IsIdx (r.tensor l).udim z) :
+    (CQMap.swap l r : CQMap R).toMat.f
+        (flatIdx (l.tensor r).udim ((xc ++ yc) ++ (xq ++ yq) ++ (xp ++ yp)))
+        (flatIdx (r.tensor l).udim z) =
+      iv (z = (yc ++ xc) ++ (yq ++ xq) ++ (yp ++ xp)) :=
+  CQMap.swap_utensor l r hxc hyc hxq hyq hxp hyp hz
+
+/-- Non-vacuity, heterogeneous: `C(Dim(2)) @ Q(Dim(3))` against `C(Dim(3)) @ Q(Dim(2, 2))`. The
+    input wires (2,3 | 3,2,2 | 3,2,2) carry (1,2 | 2,1,0 | 1,0,1); the output wires
+    (3,2 | 2,2,3 | 2,2,3) carry (2,1 | 1,0,2 | 0,1,1): entry 1. -/
+example : (CQMap.swap ⟨[2], [3]⟩ ⟨[3], [2, 2]⟩ : CQMap R).toMat.f
+    (flatIdx [2, 3, 3, 2, 2, 3, 2, 2] [1, 2, 2, 1, 0, 1, 0, 1])
+    (flatIdx [3, 2, 2, 2, 3, 2, 2, 3] [2, 1, 1, 0, 2, 0, 1, 1]) = 1 := by
+  have h := cq_swap_spec (R := R) ⟨[2], [3]⟩ ⟨[3], [2, 2]⟩
+    (xc := [1]) (yc := [2]) (xq := [2]) (yq := [1, 0]) (xp := [1]) (yp := [0, 1])
+    (z := [2, 1, 1, 0, 2, 0, 1, 1])
+    (by simp [IsIdx]) (by simp [IsIdx]) (by simp [IsIdx]) (by simp [IsIdx]) (by simp [IsIdx])
+    (by simp [IsIdx]) (by simp [IsIdx, CQTy.udim, CQTy.tensor])
+  simpa [CQTy.udim, CQTy.tensor] using h
+
+/-- … and the mirror image on the conjugate copy (the wire of `l` FIRST there: what permuting that
+    copy by the inverse swap would give) has entry 0. -/
+example : (CQMap.swap ⟨[], [2]⟩ ⟨[], [2, 2]⟩ : CQMap R).toMat.f
+    (flatIdx [2, 2, 2, 2, 2, 2] [1, 0, 1, 1, 0, 1])
+    (flatIdx [2, 2, 2, 2, 2, 2] [0, 1, 1, 1, 1, 0]) = 0 := by
+  have h := cq_swap_spec (R := R) ⟨[], [2]⟩ ⟨[], [2, 2]⟩
+    (xc := []) (yc := []) (xq := [1]) (yq := [0, 1]) (xp := [1]) (yp := [0, 1])
+    (z := [0, 1, 1, 1, 1, 0])
+    (by simp [IsIdx]) (by simp [IsIdx]) (by simp [IsIdx]) (by simp [IsIdx]) (by simp [IsIdx])
+    (by simp [IsIdx]) (by simp [IsIdx, CQTy.udim, CQTy.tensor])
+  simpa [CQTy.udim, CQTy.tensor] using h
+
+/-- The compiled model computes exactly this at the driver's scalars (`cqexpr swap …`). -/
+example : (CQMap.swap ⟨[], [3]⟩ ⟨[], [2]⟩ : CQMap D8).toMat.f
+    (flatIdx [3, 2, 3, 2] [2, 1, 1, 0]) (flatIdx [2, 3, 2, 3] [1, 2, 0, 1]) = 1 := by decide
+
+end CQSwap
 
 /-! Non-vacuity: concrete non-trivial instances (pairwise distinct wire types, a non-involutive
     permutation of length 4, widths 2 × 3), the refusals, and a witness that the convention is
